@@ -172,11 +172,25 @@ class RuntimeAssertionFeedback(AssertionFeedback):
             parent = self.report.get_current_group()
             # TODO: Does this handle nested groups correctly?
             if parent is not None:
-                if not parent.try_all:
+                if not getattr(parent, 'try_all', True):
                     raise AssertionBreak(self, e)
+            if not isinstance(parent, assert_group):
+                # An assertion group counts this as an error; anywhere else, an
+                # assertion whose relation could not even be evaluated for the
+                # given values has failed - it must not pass silently.
+                self._fail_because_of_error()
         if not self:
             if self.report[TOOL_NAME]['exceptions']:
                 raise AssertionBreak(self)
+
+    def _fail_because_of_error(self):
+        """ Turn this assertion, which was recorded as untriggered because
+        checking it raised an error, into a triggered (failed) assertion. """
+        if self in self.report.ignored_feedback:
+            self.report.ignored_feedback.remove(self)
+        self._met_condition = True
+        self.message = self._get_message()
+        self.report.add_feedback(self)
 
     def get_sandbox_contexts(self, wrapped_values):
         """ Retrieve any sandbox contexts associated with these values. """
